@@ -7,7 +7,10 @@ use std::hash::{Hash, Hasher};
 use std::iter::FromIterator;
 use std::ops::{Index, IndexMut};
 use std::rc::Rc;
+#[cfg(not(terohuttunen_proto_vulcan_verif_shuttle))]
 use std::sync::atomic::{AtomicUsize, Ordering};
+#[cfg(terohuttunen_proto_vulcan_verif_shuttle)]
+use shuttle::sync::atomic::{AtomicUsize, Ordering};
 use std::vec::Vec;
 
 pub use crate::lvalue::LValue;
